@@ -19,10 +19,10 @@ def run(tier):
     for (k, n, m) in kinds:
         jobs.append(lambda k=k, n=n, m=m: machine_run(k, n, m, "OpsArith", depth=3, mant=53, props=False))
         jobs.append(lambda k=k, n=n, m=m: machine_run(k, n, m, "OpsArith", depth=3, mant=24, props=False))
-    nested = NESTED_QUICK if tier == "quick" else NESTED_THOROUGH
+    nested = NESTED_THOROUGH          # (3-9 s each since the scalar level binds its arguments strictly)
     for (k, n, m, inner) in nested:
         jobs.append(lambda k=k, n=n, m=m, inner=inner: machine_run(k, n, m, "OpsArith", depth=3, mant=53, props=False, inner=inner,
-                                                                   loadset="LoadSetNestedQuick" if tier == "quick" else "LoadSetNested", workers=4,
+                                                                   loadset="LoadSetNested", workers=3,
                                                                    timeout=1800))
     results = parallel(jobs, max_par=5)
     ref = results[0]
@@ -40,7 +40,9 @@ def run(tier):
     require_cases(chk, chk.distinct, kinds, OPS, what="C02 arithmetic")
     for (k, n, m, inner) in nested:
         key = "%s%s<%s>:f64" % (k, ":%d" % n if k.endswith("Vec") else "", inner)
-        for op in (("add", "sub", "mul", "div", "neg", "powi", "recip") if inner == "Dual" and k in ("Dual", "Dual2") else ("add", "sub", "mul", "neg")):
+        need = ("add", "sub", "mul", "neg", "powi") if inner != "Dual" else \
+               ("add", "sub", "mul", "div", "neg", "powi") if k in ("Dual3", "HHD") else ("add", "sub", "mul", "div", "neg", "powi", "recip")
+        for op in need:
             if not any(c.startswith(key + "|" + op + "|") for c in chk.distinct):
                 raise ToolError("vacuity: nested type %s never exercised %s" % (key, op))
     chk.cov["nested_configurations"] = ["%s<%s>" % (k, inner) for (k, n, m, inner) in nested]
